@@ -6,6 +6,7 @@ import (
 	"io"
 	"math"
 	"sort"
+	"strconv"
 	"strings"
 
 	"github.com/fluhus/biostuff/formats/sam"
@@ -59,6 +60,9 @@ func parseF(s string) float64 {
 		return math.Copysign(0, -1)
 	case "":
 		return 0
+	}
+	if f, err := strconv.ParseFloat(s, 64); err == nil {
+		return f
 	}
 	var f float64
 	fmt.Sscanf(s, "%g", &f)
@@ -358,6 +362,9 @@ func runC03(r *core.Run) {
 			return core.Outcome{Class: fmt.Sprint("tag=", inTag), Nontrivial: l >= 2, Evals: 4}
 		})
 
+	interleavedReadersFor(r, []string{"sam", "samh"})
+	bigFiles(r, "sam", []int{0})
+
 	r.Bound("marked-offsets", markBounds+"; fields Qname / Seq / Qual / a Z tag, bytes '@', ':'"+core.Pick(r, "", " and '*', '=', ' ', 0x00, 0xFF")+"; '@' never first in Qname (that is a header line)")
 	core.Clause(r, "marked-offsets", core.Opts{Rule: "a format-vocabulary byte at EVERY offset of a long Qname, Seq, Qual or Z tag (it meets every internal buffer boundary of the reader); written, read back as the middle alignment line of three; non-trivial = all"},
 		genMarks([]string{"qname", "seq", "qual", "ztag"}, core.Pick(r, []int{'@', ':'}, []int{'@', '*', '=', ':', ' ', 0x00, 0xFF}), func(f string, b, off int) bool { return f == "qname" && b == '@' && off == 0 }),
@@ -405,7 +412,7 @@ func runC03(r *core.Run) {
 	for _, v := range []int{0, -1, math.MaxInt64, math.MinInt64} {
 		full = append(full, samTag{Type: "i", I: v})
 	}
-	for _, v := range []string{"0", "-0", "1.5", "0.1", "1e+300", "5e-324", "1.7976931348623157e+308", "NaN", "+Inf", "-Inf", "-2.5e-07"} {
+	for _, v := range append([]string{"0", "-0", "1.5", "0.1", "1e+300", "5e-324", "1.7976931348623157e+308", "NaN", "+Inf", "-Inf", "-2.5e-07"}, sharpFloats()...) {
 		full = append(full, samTag{Type: "f", F: v})
 	}
 	for _, v := range append(samTextMenu(), ":", "a:b", "::", "Z:", `":"`) {
@@ -419,7 +426,7 @@ func runC03(r *core.Run) {
 		{Type: "Z", Z: "a:b"}, {Type: "Z", Z: " "}, {Type: "H", H: []int{}}, {Type: "H", H: []int{255, 0}}}
 	names := []string{"NM", "XA", "Xb"}
 	maxTags := core.Pick(r, 2, 3)
-	r.Bound("tags", fmt.Sprintf("tag names %v; single tags over the full value menu (%d values: A all printable 0x21..0x7e, i extremes, f incl. NaN/Inf/-0/subnormal/max, Z sharp strings incl. colons and quotes, H incl. empty); tag sets of size 2..%d over a reduced menu of %d values", names, len(full), maxTags, len(reduced)))
+	r.Bound("tags", fmt.Sprintf("tag names %v; single tags over the full value menu (%d values: A all printable 0x21..0x7e, i extremes, f incl. NaN/Inf/-0/subnormal/max and 40 sharp values (exactly-float32 values such as float64(float32(0.1)) and MaxFloat32, 2^24+1, 2^53.., 1e21/1e22, neighbours of 1, smallest normal, notation-switch magnitudes), Z sharp strings incl. colons and quotes, H incl. empty); tag sets of size 2..%d over a reduced menu of %d values", names, len(full), maxTags, len(reduced)))
 	core.Clause(r, "tags", core.Opts{Rule: "every tag set within the bounds on an otherwise default record, written and read back; tags must be written in ascending order; non-trivial = all"},
 		func(emit func(samRec) bool) {
 			for _, n := range names {
